@@ -9,7 +9,7 @@ from concurrent.futures import ThreadPoolExecutor
 
 VERIF = os.path.dirname(os.path.dirname(os.path.dirname(os.path.abspath(__file__))))
 REPO = os.environ.get("VERIF_REPO", "/repo")
-BUILD = os.path.join(VERIF, "build")
+BUILD = os.path.join(VERIF, "build") if REPO == "/repo" else os.path.join(VERIF, "build", "alt_" + hashlib.sha1(REPO.encode()).hexdigest()[:8])
 COQ = os.path.join(VERIF, "coq")
 HARNESS = os.path.join(VERIF, "harness")
 NPROC = int(os.environ.get("VERIF_JOBS", "16"))
@@ -253,7 +253,7 @@ def check_properties(ctx, pid=None):
     except FileNotFoundError:
         pass
     rc, log = coq_make([vo], keep_going=True)
-    cmd = "cd /verif/coq && make %s   # = coqc %s %s (after its dependencies)" % (vo, COQ_ARGS, f)
+    cmd = "cd %s && make %s   # = coqc %s %s (after its dependencies)" % (COQ, vo, COQ_ARGS, f)
     ctx.coverage["checker_cmd"] = cmd
     axioms = set()
     if rc == 0:
@@ -347,7 +347,7 @@ def coq_failing_cases(ctx, name, requires, casetype, chk, terms, shard=400, extr
 # ----------------------------------------------------------------------------- harness
 
 def build_driver(ctx, drv, timeout=1500):
-    rc, out, err = sh("make -s -j%d -f %s/Makefile %s/drv_%s" % (NPROC, HARNESS, BUILD, drv), cwd=HARNESS, timeout=timeout)
+    rc, out, err = sh("make -s -j%d -f %s/Makefile REPO=%s B=%s %s/drv_%s" % (NPROC, HARNESS, REPO, BUILD, BUILD, drv), cwd=HARNESS, timeout=timeout)
     if rc != 0:
         ctx.broke("correspondence", "harness-build:drv_%s" % drv, out + err)
         return False
